@@ -3,6 +3,8 @@
 -/
 import NiVerif.Model.Timing
 import NiVerif.Gen.Irregular
+import NiVerif.Gen.Regular
+import NiVerif.Proofs.Bits
 import NiVerif.Props.C20
 
 namespace Props.C08
@@ -418,5 +420,107 @@ theorem gen_monotonic_eq_model (ts : List Int) : Gen.Irregular._are_timestamps_m
 theorem gen_monotonic_iff (ts : List Int) :
     Gen.Irregular._are_timestamps_monotonic ts = true ↔ (nonDecreasing ts ∨ nonIncreasing ts) := by
   rw [gen_monotonic_eq_model]; exact mono_iff ts
+
+/-- advance-then-yield, `n` times -/
+def advLoop (F : Fam) (dt : Int) : Nat → Int → Except PyErr (List Int)
+  | 0, _ => .ok []
+  | n + 1, t => (F.abs (t + dt)).bind fun t' => (advLoop F dt n t').map (t' :: ·)
+
+theorem genLoop_succ (F : Fam) (dt : Int) (n : Nat) (t : Int) : genLoop F dt (n + 1) t = (advLoop F dt n t).map (t :: ·) := by
+  induction n generalizing t with
+  | zero => rfl
+  | succ n ih =>
+    simp only [genLoop, advLoop]
+    cases h : F.abs (t + dt) with
+    | error e => rfl
+    | ok t' =>
+      simp only [Except.bind]
+      rw [ih t']
+
+/-- every iteration after the first of a loop `if i != 0: t += dt; yield t` is advance-then-yield -/
+theorem genRange_adv (F : Fam) (dt : Int) (body : Nat → Int → Except PyErr (Int × List Int))
+    (hb : ∀ i t, i ≠ 0 → body i t = (F.abs (t + dt)).bind fun t' => .ok (t', [t'])) :
+    ∀ (n lo : Nat) (t : Int), lo ≠ 0 → Py.genRange lo n t body = advLoop F dt n t := by
+  intro n
+  induction n with
+  | zero => intro lo t _; rfl
+  | succ n ih =>
+    intro lo t hlo
+    simp only [Py.genRange, advLoop, hb lo t hlo]
+    cases h : F.abs (t + dt) with
+    | error e => rfl
+    | ok t' =>
+      simp only [Except.bind]
+      rw [ih (lo + 1) t' (by omega)]
+      cases advLoop F dt n t' <;> rfl
+
+/-- **the generator of the source is the model's loop**: `list(_generate_regular_timestamps(timing, i, n))` -/
+theorem gen_regular_eq_model (F : Fam) (si st i n : Int) :
+    Gen.Regular.generate_regular_timestamps F si st i n
+      = (F.rel (i * si)).bind fun d => (F.abs (st + d)).bind fun t0 => genLoop F si n.toNat t0 := by
+  unfold Gen.Regular.generate_regular_timestamps
+  simp only [Proofs.bind_ok]
+  cases h1 : F.rel (i * si) with
+  | error e => rfl
+  | ok d =>
+    simp only [Except.bind]
+    cases h2 : F.abs (st + d) with
+    | error e => rfl
+    | ok t0 =>
+      simp only []
+      cases hn : n.toNat with
+      | zero => rfl
+      | succ m =>
+        rw [genLoop_succ]
+        -- (the two side conditions are closed by arithmetic on the loop index, so `i != 0`, `i > 0`, `i >= 1`, `0 < i` … in the
+        --  source all go through)
+        simp (config := { decide := true }) only [Py.genRange, Except.bind, ne_eq, not_true_eq_false, if_false, Nat.lt_irrefl, gt_iff_lt, ge_iff_le,
+          Nat.not_succ_le_zero, reduceIte]
+        rw [genRange_adv F si _ (by
+              intro i t hi
+              have hp : 0 < i := Nat.pos_of_ne_zero hi
+              have hq : 1 ≤ i := hp
+              simp only [ne_eq, hi, not_false_eq_true, if_true, gt_iff_lt, hp, ge_iff_le, hq]
+              cases F.abs (t + si) <;> rfl) m 1 t0 (by omega)]
+        cases advLoop F si m t0 <;> rfl
+
+/-- … hence the generator of the SOURCE yields, for `n ≥ 0`, exactly `n` timestamps, the k-th being `t0 + k·interval` with
+    `t0 = start_time + start_index·interval` - no drift, nothing beyond what was asked for - or refuses with OverflowError -/
+theorem gen_regular_spec (F : Fam) (si st i n : Int) (L : List Int)
+    (h : Gen.Regular.generate_regular_timestamps F si st i n = .ok L) :
+    L.length = n.toNat ∧ ∀ k : Nat, k < n.toNat → L[k]? = some (st + i * si + (k : Int) * si) := by
+  rw [gen_regular_eq_model] at h
+  cases h1 : F.rel (i * si) with
+  | error e => rw [h1] at h; cases h
+  | ok d =>
+    rw [h1] at h; simp only [Except.bind] at h
+    cases h2 : F.abs (st + d) with
+    | error e => rw [h2] at h; cases h
+    | ok t0 =>
+      rw [h2] at h; simp only [] at h
+      have hd : d = i * si := by
+        unfold Fam.rel at h1; split at h1 <;> first | (injection h1 with h1; exact h1.symm) | cases h1
+      have ht : t0 = st + d := by
+        unfold Fam.abs at h2; split at h2 <;> first | (injection h2 with h2; exact h2.symm) | cases h2
+      obtain ⟨hl, hk⟩ := genLoop_spec F si n.toNat t0 L h
+      refine ⟨hl, fun k hkn => ?_⟩
+      rw [hk k hkn, ht, hd]
+
+theorem gen_regular_err (F : Fam) (si st i n : Int) (e : PyErr)
+    (h : Gen.Regular.generate_regular_timestamps F si st i n = .error e) : e = .OverflowError := by
+  rw [gen_regular_eq_model] at h
+  cases h1 : F.rel (i * si) with
+  | error e1 =>
+    rw [h1] at h; simp only [Except.bind] at h; injection h with h; subst h
+    unfold Fam.rel at h1; split at h1 <;> first | (cases h1; done) | (cases h1; rfl)
+  | ok d =>
+    rw [h1] at h; simp only [Except.bind] at h
+    cases h2 : F.abs (st + d) with
+    | error e2 =>
+      rw [h2] at h; simp only [] at h; injection h with h; subst h
+      unfold Fam.abs at h2; split at h2 <;> first | (cases h2; done) | (cases h2; rfl)
+    | ok t0 =>
+      rw [h2] at h; simp only [] at h
+      exact genLoop_err F si n.toNat t0 e h
 
 end Props.C08
